@@ -83,11 +83,6 @@ package types
 //@   ensures paths:  forall b *Backend :: old(allocated(b)) ==> b.Paths == old(b.Paths)
 //@ end
 
-//@ func (*Backends).BuildUsedAuthBackends
-//@   trusted
-//@   modifies nothing
-//@ end
-
 // ---------------------------------------------------------------------------
 // acme storages (C17): add/del bookkeeping of the certificates to request
 
@@ -290,12 +285,14 @@ package types
 // one hostname, a path is never placed after one of its proper prefixes (the
 // longer declared path is tested first)
 //@ func (*hostsMapMatchFile).sort
-//@   props C04
+//@   props C04 C03
 //@   requires nn: forall k int :: 0 <= k && k < len(mf.entries) ==> mf.entries[k] != nil
 //@   modifies objects("[]*HostsMapEntry")
 //@   ensures same-len: len(mf.entries) == old(len(mf.entries))
 //@   ensures exact:  mf.match == MatchExact ==> forall a int, b int :: 0 <= a && a < b && b < len(mf.entries) ==> !(mf.entries[b].Key < mf.entries[a].Key)
 //@   ensures regex:  mf.match == MatchRegex ==> forall a int, b int :: 0 <= a && a < b && b < len(mf.entries) ==> len(mf.entries[a].Key) >= len(mf.entries[b].Key)
+//@   ensures first-declared: mf.match != MatchExact && mf.match != MatchRegex ==> forall a int, b int :: 0 <= a && a < b && b < len(mf.entries)
+//@       && mf.entries[a].hostname == mf.entries[b].hostname && mf.entries[a].path == mf.entries[b].path ==> mf.entries[a].order <= mf.entries[b].order
 //@   ensures longer-first: mf.match != MatchExact && mf.match != MatchRegex ==> forall a int, b int :: 0 <= a && a < b && b < len(mf.entries)
 //@       && mf.entries[a].hostname == mf.entries[b].hostname && mf.entries[a].path != mf.entries[b].path ==> !hasPrefix(mf.entries[b].path, mf.entries[a].path)
 //@ end
@@ -447,4 +444,23 @@ package types
 //@   props C05
 //@   assume-pre acquireHost
 //@   ensures new-host: calls(AcqHost) == 1 && (!last(AcqHost).1 ==> s.changed)
+//@ end
+
+// C18 — the auth backends still in use are collected from every backend of the
+// model (not only the ones rebuilt by the current partial sync), so a port that
+// an older path still uses is never handed to another auth service
+//@ func (*Backends).BuildUsedAuthBackends
+//@   props C18 C07
+//@   modifies nothing
+//@   ensures all: forall id string, k int :: in(id, b.items) && b.items[id] != nil && 0 <= k && k < len(b.items[id].Paths) && b.items[id].Paths[k] != nil && b.items[id].Paths[k].AuthExternal.AuthBackendName != "" ==>
+//@       in(b.items[id].Paths[k].AuthExternal.AuthBackendName, result) && result[b.items[id].Paths[k].AuthExternal.AuthBackendName]
+//@   loop 1 entry whole-model: true
+//@   loop 1 invariant own:  fresh(usedNames)
+//@   loop 1 invariant seen: forall id string, k int :: $seen(1, id) && in(id, b.items) && b.items[id] != nil && 0 <= k && k < len(b.items[id].Paths) && b.items[id].Paths[k] != nil && b.items[id].Paths[k].AuthExternal.AuthBackendName != "" ==>
+//@       in(b.items[id].Paths[k].AuthExternal.AuthBackendName, usedNames) && usedNames[b.items[id].Paths[k].AuthExternal.AuthBackendName]
+//@   loop 2 invariant own:  fresh(usedNames)
+//@   loop 2 invariant outer: forall id string, k int :: $seen(1, id) && in(id, b.items) && b.items[id] != nil && b.items[id] != backend && 0 <= k && k < len(b.items[id].Paths) && b.items[id].Paths[k] != nil && b.items[id].Paths[k].AuthExternal.AuthBackendName != "" ==>
+//@       in(b.items[id].Paths[k].AuthExternal.AuthBackendName, usedNames) && usedNames[b.items[id].Paths[k].AuthExternal.AuthBackendName]
+//@   loop 2 invariant inner: forall k int :: 0 <= k && k < $idx(2) && backend.Paths[k] != nil && backend.Paths[k].AuthExternal.AuthBackendName != "" ==>
+//@       in(backend.Paths[k].AuthExternal.AuthBackendName, usedNames) && usedNames[backend.Paths[k].AuthExternal.AuthBackendName]
 //@ end
